@@ -687,6 +687,7 @@ func c10Snapshot(r *core.Run, p *core.Program) {
 		})
 		return f
 	}
+	c10Batches(r, p, ld)
 	r.Check(flag(sv) && flag(ld), rule, "flag-bit", p.Pos(sv.Pos()), "bit 63 of the first word announces compressed records on both sides", "the compressed-records bit (1<<63 of the first word) is not set by save and tested by the loader alike")
 	// the flag written follows db.ComprssedUTXO
 	okF := false
@@ -804,4 +805,185 @@ func c10Snapshot(r *core.Run, p *core.Program) {
 		}
 	}
 	r.Check(bad == "" && len(selBlocks) > 0, rule, "load/format-selected", p.Pos(ld.Pos()), fmt.Sprintf("every return of the loader follows a call of %s made after the last assignment of the flag (%d call sites)", selName, len(selBlocks)), "the loader can return at "+bad+" without selecting the record functions for the current value of db.ComprssedUTXO")
+}
+
+// c10Batches: the loader hands the records it reads to the map filler in batches through a channel.
+// With cursor c and batch buffer B: a record is written to B[c]; c's values are 0 and c+1; the send made
+// when c is the last index passes all of B (or B[:c+1]) and resets c; the send after the loop passes
+// B[:c] when c > 0. Any other bound loses or duplicates records.
+func c10Batches(r *core.Run, p *core.Program, ld *ssa.Function) {
+	const rule = "R-C10-snapshot"
+	var sends []*ssa.Send
+	for _, b := range ld.Blocks {
+		for _, ins := range b.Instrs {
+			if sd, ok := ins.(*ssa.Send); ok {
+				if c, isC := sd.X.(*ssa.Const); isC && c.Value == nil {
+					continue // the terminator
+				}
+				sends = append(sends, sd)
+			}
+		}
+	}
+	if len(sends) != 2 {
+		r.Fail(rule, "load/batches", p.Pos(ld.Pos()), fmt.Sprintf("%d batch sends in the loader, expected one for a full batch and one for the rest", len(sends)))
+		return
+	}
+	// the slot written: &B[c].b where the read destination is stored
+	var cur *ssa.Phi
+	var buf ssa.Value
+	an.Instrs(ld, func(i ssa.Instruction) {
+		ia, ok := i.(*ssa.IndexAddr)
+		if !ok || cur != nil {
+			return
+		}
+		ph, ok := ia.Index.(*ssa.Phi)
+		if !ok {
+			return
+		}
+		if _, isPhi := ia.X.(*ssa.Phi); !isPhi {
+			return
+		}
+		for _, sd := range sends {
+			base := sd.X
+			if sl, ok := base.(*ssa.Slice); ok {
+				base = sl.X
+			}
+			if base == ia.X {
+				cur, buf = ph, ia.X
+			}
+		}
+	})
+	if cur == nil {
+		r.Fail(rule, "load/batches", p.Pos(ld.Pos()), "cannot identify the batch buffer and its cursor (no send passes the buffer the records are stored into)")
+		return
+	}
+	c, B := an.Expr(cur), an.Expr(buf)
+	var probs []string
+	// cursor values
+	for _, leaf := range an.PhiLeaves(cur) {
+		switch an.Expr(leaf) {
+		case "0":
+		default:
+			bo, ok := leaf.(*ssa.BinOp)
+			if !ok || bo.Op != token.ADD || an.Expr(bo.Y) != "1" {
+				probs = append(probs, "the cursor takes the value "+an.Expr(leaf))
+				continue
+			}
+			for _, l2 := range an.PhiLeaves(bo.X) {
+				if l2 != leaf && an.Expr(l2) != "0" {
+					probs = append(probs, "the cursor is advanced from "+an.Expr(l2))
+				}
+			}
+		}
+	}
+	for _, sd := range sends {
+		cs := an.DomConds(sd.Block())
+		full := an.HasCond(cs, "("+c+" == (builtin.len("+B+") - 1))", true)
+		rest := an.HasCond(cs, "("+c+" > 0)", true) || an.HasCond(cs, "("+c+" != 0)", true)
+		v := an.Expr(sd.X)
+		switch {
+		case full:
+			if !(sd.X == buf || v == B+"[:("+c+" + 1)]" || v == B+"[:builtin.len("+B+")]") {
+				probs = append(probs, "the full batch is sent as "+v)
+			}
+			// the cursor restarts at 0 on this path
+			reset := false
+			for _, ref := range *cur.Referrers() {
+				_ = ref
+			}
+			for _, b2 := range ld.Blocks {
+				for _, ins := range b2.Instrs {
+					if ph, ok := ins.(*ssa.Phi); ok {
+						for k, e := range ph.Edges {
+							if ph.Block().Preds[k] == sd.Block() && an.Expr(e) == "0" && ph.Type() == cur.Type() && ph.Comment == cur.Comment {
+								reset = true
+							}
+						}
+					}
+				}
+			}
+			if !reset {
+				probs = append(probs, "the cursor is not reset after the full batch was sent")
+			}
+		case rest:
+			if v != B+"[:"+c+"]" {
+				probs = append(probs, "the remaining records are sent as "+v)
+			}
+		default:
+			probs = append(probs, "a batch is sent at "+p.Pos(sd.Pos())+" under neither 'cursor at the last index' nor 'cursor > 0'")
+		}
+	}
+	// a retry with the other snapshot starts with an empty batch: on the way from joining the filler of
+	// the failed attempt back to opening a file, the cursor is set to 0
+	curPhis := map[*ssa.Phi]bool{}
+	var grow func(v ssa.Value)
+	grow = func(v ssa.Value) {
+		if ph, ok := v.(*ssa.Phi); ok && !curPhis[ph] {
+			curPhis[ph] = true
+			for _, e := range ph.Edges {
+				grow(e)
+			}
+		}
+	}
+	grow(cur)
+	var opens []*ssa.BasicBlock
+	for _, c := range an.CallsTo(ld, false, "os.Open") {
+		opens = append(opens, c.(ssa.Instruction).Block())
+	}
+	for _, b := range ld.Blocks {
+		joins := false
+		for _, ins := range b.Instrs {
+			if c, ok := ins.(*ssa.Call); ok && an.CallName(c) == "(*sync.WaitGroup).Wait" {
+				joins = true
+			}
+		}
+		if !joins {
+			continue
+		}
+		// only the join on the retry path: it can reach an open
+		reaches := false
+		seen := map[*ssa.BasicBlock]bool{}
+		var walk func(x *ssa.BasicBlock)
+		walk = func(x *ssa.BasicBlock) {
+			for _, s := range x.Succs {
+				for _, o := range opens {
+					if s == o {
+						reaches = true
+					}
+				}
+				if !seen[s] {
+					seen[s] = true
+					walk(s)
+				}
+			}
+		}
+		walk(b)
+		if !reaches {
+			continue
+		}
+		// follow the straight line from the join to the next merge; the cursor phi there must get 0
+		okReset := false
+		x := b
+		for n := 0; n < 6 && !okReset; n++ {
+			if len(x.Succs) != 1 {
+				break
+			}
+			nx := x.Succs[0]
+			for _, ins := range nx.Instrs {
+				if ph, ok := ins.(*ssa.Phi); ok && curPhis[ph] {
+					for k, e := range ph.Edges {
+						if nx.Preds[k] == x && an.Expr(e) == "0" {
+							okReset = true
+						}
+					}
+				}
+			}
+			x = nx
+		}
+		if !okReset {
+			probs = append(probs, "after joining the filler of a failed attempt ("+p.Pos(b.Instrs[0].Pos())+") the batch cursor is not reset, so records of the abandoned file are sent with the next batch")
+		}
+	}
+	sort.Strings(probs)
+	r.Check(len(probs) == 0, rule, "load/batches", p.Pos(sends[0].Pos()), "cursor 0 / +1; full batch sent whole at the last index and the cursor reset; the rest sent as buffer[:cursor]", strings.Join(probs, "; "))
 }
